@@ -48,6 +48,7 @@ def plan(tier):
            symbolic="selectors only (pool indices)"),
         CH("pair", "harness.c19", "pair", pair_parts, timeout=t, desc="pair laws", bounds=BOUNDS[tier]["pair"],
            symbolic="selectors only (pool indices)"),
+        K("k_boundary", "kjobs.c19", "boundary_eq_hash", "BoundaryType: == implies equal hash keys, symmetric, reflexive (symbolic fields)"),
         CH("cross", "harness.c19", "cross", [f"0:{a}" for a in range(14)], timeout=t,
            desc="symmetry/hash over every ordered pair of distinct constructors (minimal terms)", bounds="14 x 14"),
     ]
